@@ -115,6 +115,30 @@ Section Cat.
   (* every entry would make Batch.Category() give the batch's answer *)
   Definition cat_uniform (b : sbatch) : bool :=
     forallb (fun e => cat_eqb (scat (ecat e)) (batch_cat b)) (sb_entries b).
+
+  (* ---- the category check inside validation.  Batch.verify ends with isCategory, so
+     File.Validate refuses a non-ADV file with a batch that fails it (the batches of an ADV
+     file are not validated); SegmentFile runs File.Validate on the input and on both outputs. *)
+  Definition cats_ok (bs : list sbatch) : bool := is_adv_file bs || forallb is_category_ok bs.
+
+  Definition validate_cat (T : stables) (f : sfile) : option verr :=
+    if is_adv_file (sf_batches f) then validate T f
+    else if forallb (fun b => batch_ok T b && is_category_ok b) (sf_batches f) then validate T f
+    else Some VBatch.
+
+  (* SegmentFile with categories: the gate, the walk with AddBatch's lists, Create and Validate
+     of both outputs including isCategory of every output batch *)
+  Definition segment_cat (T : stables) (f : sfile) : gres :=
+    match validate_cat T f with
+    | Some v => GErr (EInput v)
+    | None =>
+        match segment_gen T f with
+        | GErr e => GErr e
+        | GOk gc gd =>
+            if cats_ok (sf_batches (g_file gc)) && cats_ok (sf_batches (g_file gd))
+            then GOk gc gd else GErr (EOutput VBatch)
+        end
+    end.
 End Cat.
 
 (* ---- batch numbers ------------------------------------------------------------------- *)
